@@ -69,6 +69,46 @@ def range_members(rng_addr):
 # generation
 # --------------------------------------------------------------------------
 
+def add_side_effect_site(rng, world):
+    """A formula whose result is an array right above a cell that is stored
+    nowhere, and a formula reading that empty cell: whatever evaluating the
+    first one does to its surroundings in the original, the extract of the
+    second one knows nothing about it."""
+    cells = world['cells']
+    pairs = []
+    for a in world['order']:
+        sheet, loc = a.split('!')
+        if not sheet.isalnum():
+            continue
+        i = 0
+        while i < len(loc) and loc[i].isalpha():
+            i += 1
+        below = f'{sheet}!{loc[:i]}{int(loc[i:]) + 1}'
+        if below in cells and 0 in (world['level'][a],
+                                    world['level'][below]):
+            pairs.append((a, below))
+    if not pairs:
+        return None
+    top, below = rng.choice(pairs)
+    sheet = top.split('!')[0]
+    arr, hole, reader = f'{sheet}!Z7', f'{sheet}!Z8', f'{sheet}!Y7'
+    if any(x in cells for x in (arr, hole, reader)):
+        return None
+    t, b = top.split('!')[1], below.split('!')[1]
+    cells[arr] = f'={t}:{b}'
+    world['deps'][arr] = [top, below]
+    world['level'][arr] = 1 + max(world['level'][top], world['level'][below])
+    world['order'].append(arr)
+    world.setdefault('ranges_used', {})[arr] = [f'{sheet}!{t}:{b}']
+    cells[reader] = rng.choice(['=Z8&"|"', '=IF(ISBLANK(Z8),"none",Z8)',
+                                '=Z8'])
+    world['deps'][reader] = [hole]
+    world['level'][reader] = 1
+    world['order'].append(reader)
+    return {'reader': reader,
+            'member': below if world['level'][below] == 0 else top}
+
+
 def gen_case(seed, tier='quick'):
     rng = random.Random(seed)
     faulty = rng.random() < 0.4
@@ -80,6 +120,9 @@ def gen_case(seed, tier='quick'):
     else:
         world = worlds.gen_world(rng, range_names=True,
                                  userfuncs=faulty and rng.random() < 0.5)
+    side = None
+    if not world.get('xlsx') and rng.random() < 0.08:
+        side = add_side_effect_site(rng, world)
     order = world['order']
     inputs = [a for a in order if world['level'][a] == 0]
     formulas = [a for a in order if world['level'][a] > 0]
@@ -97,6 +140,12 @@ def gen_case(seed, tier='quick'):
         if f not in focus:
             focus.append(f)
     ops = []
+    if side is not None:
+        # the original is recalculated completely (also cells the focus
+        # does not need) before and after the extraction
+        if side['reader'] not in focus:
+            focus.append(side['reader'])
+        ops.append({'op': 'eval_all', 'who': 'M'})
     # prefix on the original
     for _ in range(rng.choice([0, 0, 1, 2, 4])):
         r = rng.random()
@@ -162,6 +211,13 @@ def gen_case(seed, tier='quick'):
             seq.append({'op': 'extract'})
             seq.append({'op': 'check'})
     ops.extend(seq)
+    if side is not None:
+        v = worlds.enc(rng.choice([41, 'moved', 2.5]))
+        ops += [{'op': 'set', 'who': 'M', 'id': 900, 'target': side['member'],
+                 'value': v},
+                {'op': 'set', 'who': 'X', 'id': 900, 'target': side['member'],
+                 'value': v},
+                {'op': 'eval_all', 'who': 'M'}, {'op': 'check'}]
     if seq and seq[-1]['op'] != 'check':
         ops.append({'op': 'check'})
     if faulty:
